@@ -13,7 +13,8 @@ From H3V Require Import Base.Bytes Gen.GenCodes Gen.GenStreamFaults Spec.StreamS
 (* T1 + T3.  For any number of requests and every interleaving: the connection stays quiet (error cell empty,
    close never called, the driver returns no error), and every request meets the specification table:
    once finished it shows one of the allowed stream-level outcomes (RemoteTerminate with the peer's code
-   for RESET at any offset / STOP_SENDING, H3_MESSAGE_ERROR with reset+stop_sending, HeaderTooBig with the
+   for RESET at any offset / STOP_SENDING, Undefined for a transport-specific failure of the receive half at any
+   offset, H3_MESSAGE_ERROR with reset+stop_sending, HeaderTooBig with the
    431 answer / the cancel, H3_REQUEST_INCOMPLETE with the reset; for a malformed TRAILER section
    H3_MESSAGE_ERROR with stop_sending(H3_MESSAGE_ERROR), for an oversized one HeaderTooBig, both only once the
    stream has ended behind the trailers), while running it has delivered a prefix of its own data. *)
@@ -114,20 +115,23 @@ Proof. repeat split; reflexivity. Qed.
 Example C07_confined_inhabited :
   let l := [({| c_role := Server; c_hsize := 42; c_body := [9]; c_trl := Some 36; c_grease := true; c_unk := false |},
              [EHeaders HOk; EData 2 [1]; EMore [2]; EHeaders HOk; EFin]);
-            ({| c_role := Server; c_hsize := 42; c_body := []; c_trl := None; c_grease := false; c_unk := false |}, [EHeaders HOk; EData 3 [7]; EReset 77]);
+            ({| c_role := Server; c_hsize := 42; c_body := []; c_trl := None; c_grease := false; c_unk := false |}, [EHeaders HOk; EData 3 [7]; EReset (Some 77)]);
             ({| c_role := Server; c_hsize := 42; c_body := []; c_trl := None; c_grease := false; c_unk := false |},
-             [EHeaders HOk; EData 1 [5]; EHeaders HMalformed; EFin])] in
-  let sched := [Open 0; Open 1; Open 2; Deliver 1; Deliver 0; Poll 1; Deliver 1; Deliver 0; Deliver 1; Poll 0; Poll 1;
+             [EHeaders HOk; EData 1 [5]; EHeaders HMalformed; EFin]);
+            ({| c_role := Server; c_hsize := 42; c_body := []; c_trl := None; c_grease := false; c_unk := false |},
+             [EHeaders HOk; EData 4 [6]; EReset None])] in
+  let sched := [Open 0; Open 1; Open 2; Open 3; Deliver 3; Deliver 3; Poll 3; Deliver 3; Poll 3; Deliver 1; Deliver 0; Poll 1; Deliver 1; Deliver 0; Deliver 1; Poll 0; Poll 1;
                 Deliver 2; Deliver 2; Poll 2; Deliver 2; Deliver 2; Poll 2;
                 Deliver 0; Deliver 0; Deliver 0; Poll 0; Poll 0; Poll 0; Poll 0; Poll 0; DriverPoll] in
   in_class l /\ Forall (action_ok (fun _ => None) None false) sched /\
   map observe (reqs (run sched (init_world l))) =
     [{| ob_out := OOk; ob_data := [1; 2]; ob_trl := true; ob_calls := [CFin]; ob_tx := [WHeaders 200; WData [9]; WTrailers; WGrease] |};
      {| ob_out := OStreamErr KRemoteTerminate (Some 77); ob_data := []; ob_trl := false; ob_calls := []; ob_tx := [] |};
-     {| ob_out := OStreamErr KStreamError (Some 270); ob_data := [5]; ob_trl := false; ob_calls := [CStop 270]; ob_tx := [] |}].
+     {| ob_out := OStreamErr KStreamError (Some 270); ob_data := [5]; ob_trl := false; ob_calls := [CStop 270]; ob_tx := [] |};
+     {| ob_out := OStreamErr KUndefined None; ob_data := [6]; ob_trl := false; ob_calls := []; ob_tx := [] |}].
 Proof.
   cbv zeta. split; [|split].
-  - intros i c S H. destruct i as [|[|[|i]]]; cbn in H; try (destruct i; discriminate H);
+  - intros i c S H. destruct i as [|[|[|[|i]]]]; cbn in H; try (destruct i; discriminate H);
       injection H as H1 H2; subst; vm_compute; discriminate.
   - repeat constructor.
   - vm_compute. reflexivity.
